@@ -66,6 +66,18 @@ CHECKS.update({
               "input pinned to the same value, i.e. the operation performed by a combinator at run time), and any out-of-int32 constant in an "
               "accepted blueprint is rejected."),
         design="DESIGN 7 C11", technique="TLC refinement against Int32 compile-time semantics + lock-step twin comparison"),
+    "C15": dict(
+        text=("Every program of the GenFL function families is compiled together with its Inline twin (Facto!Inline: body substituted, "
+              "parameters bound to the arguments, locals renamed apart, return expression in place of the call); TLC judges both builds "
+              "against the interpreter (which gives every call its own combinators, cells and entities) and compares them in lock-step over "
+              "all valuations, and over all input histories for bodies that declare memory."),
+        design="DESIGN 7 C15/C16", technique="TLC lock-step product of a program's build and its specification-computed inlined twin"),
+    "C16": dict(
+        text=("Every program of the GenFL loop families (all (start, stop, step) of a small box incl. empty / descending / non-dividing, "
+              "list iterators, nested and triangular loops, int-variable bounds, body-local declarations incl. shadowing, calls and memory) "
+              "is compiled together with its Unroll twin (Facto!Unroll); entity conditions, placed entities and exported values of both "
+              "builds are judged against the interpreter and compared in lock-step."),
+        design="DESIGN 7 C15/C16", technique="TLC lock-step product of a program's build and its specification-computed unrolled twin"),
     "C20": dict(
         text=("For every program of the scalar core, optimised and unoptimised build: producer label carries name and line, exactly one empty "
               "anchor labelled with the name (or a constant producer), the anchor reads the interpreter's value on the result's own signal, every "
